@@ -81,7 +81,7 @@ func c01Burst(h *c01H, work [][]*c01Call) []c01Stamped {
 
 // c01BurstOp: a call that certainly succeeds (good) or certainly fails, as in TestVerifC01Stress.
 func c01BurstOp(rnd interface{ Intn(int) int }, good bool) c01Op {
-	op := c01Op{Op: "call", Api: c01Apis[rnd.Intn(len(c01Apis))], Ctx: []string{"none", "live"}[rnd.Intn(2)]}
+	op := c01Op{Op: "call", Api: c01Apis[rnd.Intn(len(c01Apis))], Ctx: c01BurstCtxs[rnd.Intn(len(c01BurstCtxs))]}
 	if good {
 		op.Out, op.How = "ok", "accept"
 		if (op.Api == "doAcc" || op.Api == "doFbAcc") && rnd.Intn(2) == 0 {
@@ -89,7 +89,7 @@ func c01BurstOp(rnd interface{ Intn(int) int }, good bool) c01Op {
 		}
 		op.Acc = []string{"ok", "accErr"}
 	} else {
-		op.Out, op.How = []string{"err", "err", "accErr", "panic"}[rnd.Intn(4)], "reject"
+		op.Out, op.How = c01BurstFails[rnd.Intn(len(c01BurstFails))], "reject"
 		op.Acc = []string{"ok"}
 	}
 	if op.Api == "do" || op.Api == "doFb" || op.Api == "allow" {
